@@ -1,45 +1,1370 @@
-//! C09 check (see /verif/DESIGN.md section 5 and /verif/mc/README-dev.md).
+//! C09 — (S)LEB128 codecs of nat / int (big-number and 128-bit) are exact, in both build
+//! profiles (see /verif/DESIGN.md section 5 "### C09" and /verif/mc/README-dev.md).
+//!
+//! Bounded-exhaustive: every byte string of the input families below is fed to every decoder
+//! entry point of the subject and compared with the reference (S)LEB128 on mathematical
+//! integers (`refmodel::leb`, R6); every integer of the encoder family is encoded by every
+//! encoder entry point and compared with R6's minimal string.
+//!
+//! The same sweep is executed by a plain `--release` build of this binary
+//! (`$MC_RELEASE_DIR/c09 --worker-release --tier T`); the parent merges its report.
+use candid::types::leb128 as sub_leb;
+use candid::types::value::{IDLArgs, IDLValue};
+use candid::{Decode, Encode, Int, Nat};
 use mclib::engine::{catch, finish, install_quiet_panic_hook, Ctx, Report, Tier};
-use serde_json::json;
+use num_bigint::{BigInt, BigUint, Sign};
+use num_traits::{One, Signed, ToPrimitive, Zero};
+use refmodel::leb;
+use serde_json::{json, Value};
+use std::collections::{BTreeMap, BTreeSet};
+use std::sync::Mutex;
 
-fn parse_args() -> (Tier, Option<String>, Vec<String>) {
-    let args: Vec<String> = std::env::args().collect();
-    let mut tier = match std::env::var("VERIF_TIER").as_deref() {
-        Ok("thorough") => Tier::Thorough,
-        _ => Tier::Quick,
+// ------------------------------------------------------------------------------------------
+// entry points
+// ------------------------------------------------------------------------------------------
+
+/// decoder entry points (index = position in `DEC`)
+const DEC: [&str; 17] = [
+    "Nat::decode",                 // 0  reader, unsigned
+    "Int::decode",                 // 1  reader, signed
+    "leb128::decode_nat",          // 2  reader, unsigned, u128 range
+    "leb128::decode_int",          // 3  reader, signed, i128 range
+    "Decode!(Nat)<-nat",           // 4
+    "Decode!(Int)<-int",           // 5
+    "Decode!(Int)<-nat",           // 6
+    "Decode!(u128)<-nat",          // 7
+    "Decode!(i128)<-int",          // 8
+    "Decode!(i128)<-nat",          // 9
+    "Decode!(Vec<Nat>)<-vec_nat",  // 10
+    "Decode!(Vec<Int>)<-vec_int",  // 11
+    "Decode!(Vec<Int>)<-vec_nat",  // 12
+    "Decode!(BTreeMap<u8,Int>)",   // 13
+    "Decode!(BTreeMap<String,Nat>)", // 14
+    "IDLArgs::from_bytes<-nat",    // 15
+    "IDLArgs::from_bytes<-int",    // 16
+];
+/// encoder entry points (index = DEC.len() + position)
+const ENC: [&str; 10] = [
+    "Nat::encode",
+    "Int::encode",
+    "leb128::encode_nat",
+    "leb128::encode_int",
+    "Encode!(Nat)",
+    "Encode!(Int)",
+    "Encode!(u128)",
+    "Encode!(i128)",
+    "IDLArgs::to_bytes(Nat)",
+    "IDLArgs::to_bytes(Int)",
+];
+const NENTRY: usize = DEC.len() + ENC.len();
+fn entry_name(e: usize) -> &'static str {
+    if e < DEC.len() {
+        DEC[e]
+    } else {
+        ENC[e - DEC.len()]
+    }
+}
+fn entry_index(name: &str) -> Option<usize> {
+    (0..NENTRY).find(|e| entry_name(*e) == name)
+}
+
+/// outcome classes; the first four are conforming outcomes, the rest are violations
+const CLASSES: [&str; 12] = [
+    "ok",                    // 0 value (and consumed length) as the reference says
+    "err-unterminated",      // 1 error, reference: unterminated
+    "err-out-of-range",      // 2 error, reference: value outside the host type
+    "enc-ok",                // 3 encoder emitted the minimal string
+    "panic",                 // 4
+    "wrong-value",           // 5
+    "wrong-consumed",        // 6
+    "wrong-container",       // 7 companion elements of the vector / map differ
+    "rejected-valid",        // 8 error where the reference defines a value (in range)
+    "accepted-unterminated", // 9
+    "accepted-out-of-range", // 10
+    "enc-wrong-bytes",       // 11 (also encoder returned an error)
+];
+const NCLASS: usize = CLASSES.len();
+const FIRST_BAD: usize = 4;
+
+// message templates (written by hand from spec/Candid.md; validated against the reference
+// wire decoder in `selftest_templates`)
+const H_NAT: &[u8] = b"DIDL\x00\x01\x7d";
+const H_INT: &[u8] = b"DIDL\x00\x01\x7c";
+const H_VEC_NAT: &[u8] = b"DIDL\x01\x6d\x7d\x01\x00";
+const H_VEC_INT: &[u8] = b"DIDL\x01\x6d\x7c\x01\x00";
+const H_MAP_U8_INT: &[u8] = b"DIDL\x02\x6d\x01\x6c\x02\x00\x7b\x01\x7c\x01\x00";
+const H_MAP_TEXT_NAT: &[u8] = b"DIDL\x02\x6d\x01\x6c\x02\x00\x71\x01\x7d\x01\x00";
+const SENTINEL: u8 = 0x2a;
+
+/// (header, bytes before x, bytes after x) for a terminated x; for an unterminated x the
+/// container has one element and x is the last thing in the message.
+fn template(e: usize, terminated: bool) -> (&'static [u8], &'static [u8], &'static [u8]) {
+    match (e, terminated) {
+        (4 | 7 | 9 | 15 | 6, _) => (H_NAT, b"", b""),
+        (5 | 8 | 16, _) => (H_INT, b"", b""),
+        (10 | 12, true) => (H_VEC_NAT, b"\x02", b"\x2a"),
+        (10 | 12, false) => (H_VEC_NAT, b"\x01", b""),
+        (11, true) => (H_VEC_INT, b"\x02", b"\x7e"),
+        (11, false) => (H_VEC_INT, b"\x01", b""),
+        (13, true) => (H_MAP_U8_INT, b"\x02\x05", b"\x09\x7e"),
+        (13, false) => (H_MAP_U8_INT, b"\x01\x05", b""),
+        (14, true) => (H_MAP_TEXT_NAT, b"\x02\x01a", b"\x01b\x2a"),
+        (14, false) => (H_MAP_TEXT_NAT, b"\x01\x01a", b""),
+        _ => unreachable!(),
+    }
+}
+fn build_msg(e: usize, x: &[u8], terminated: bool, out: &mut Vec<u8>) {
+    let (h, pre, post) = template(e, terminated);
+    out.clear();
+    out.extend_from_slice(h);
+    out.extend_from_slice(pre);
+    out.extend_from_slice(x);
+    out.extend_from_slice(post);
+}
+
+// ------------------------------------------------------------------------------------------
+// digests, numeric trait
+// ------------------------------------------------------------------------------------------
+
+struct H(u64);
+impl H {
+    fn new() -> H {
+        H(0xcbf29ce484222325)
+    }
+    #[inline]
+    fn b(&mut self, x: u8) {
+        self.0 ^= x as u64;
+        self.0 = self.0.wrapping_mul(0x100000001b3);
+    }
+    #[inline]
+    fn u64(&mut self, x: u64) {
+        for b in x.to_le_bytes() {
+            self.b(b);
+        }
+    }
+    fn fin(self) -> u64 {
+        let mut z = self.0.wrapping_add(0x9e3779b97f4a7c15);
+        z = (z ^ (z >> 30)).wrapping_mul(0xbf58476d1ce4e5b9);
+        z = (z ^ (z >> 27)).wrapping_mul(0x94d049bb133111eb);
+        z ^ (z >> 31)
+    }
+}
+
+trait Num: PartialEq {
+    fn feed(&self, h: &mut H);
+    fn show(&self) -> String;
+}
+impl Num for BigUint {
+    fn feed(&self, h: &mut H) {
+        for d in self.iter_u64_digits() {
+            h.u64(d);
+        }
+    }
+    fn show(&self) -> String {
+        self.to_string()
+    }
+}
+impl Num for BigInt {
+    fn feed(&self, h: &mut H) {
+        h.b(match self.sign() {
+            Sign::Minus => 2,
+            Sign::NoSign => 0,
+            Sign::Plus => 1,
+        });
+        for d in self.iter_u64_digits() {
+            h.u64(d);
+        }
+    }
+    fn show(&self) -> String {
+        self.to_string()
+    }
+}
+impl Num for u128 {
+    fn feed(&self, h: &mut H) {
+        h.u64(*self as u64);
+        h.u64((*self >> 64) as u64);
+    }
+    fn show(&self) -> String {
+        self.to_string()
+    }
+}
+impl Num for i128 {
+    fn feed(&self, h: &mut H) {
+        (*self as u128).feed(h)
+    }
+    fn show(&self) -> String {
+        self.to_string()
+    }
+}
+
+enum Exp<'a, V> {
+    Val(&'a V, Option<usize>),
+    /// "unterminated" | "out-of-range"
+    Err(&'static str),
+}
+enum Obs<V> {
+    Val(V, Option<usize>),
+    /// container decoded but its shape / companion elements are not the expected ones
+    Shape(String),
+    Err(candid::Error),
+    Panic(String),
+}
+
+// ------------------------------------------------------------------------------------------
+// aggregation of violations: one key per (entry, class, byte length), smallest input kept
+// ------------------------------------------------------------------------------------------
+
+#[derive(Clone, Debug)]
+struct VRec {
+    /// sort key; for decoders this is the literal input
+    input: Vec<u8>,
+    /// for encoders: the decimal integer
+    label: String,
+    msg: String,
+    count: u64,
+}
+#[derive(Default)]
+struct Agg {
+    viol: BTreeMap<(usize, usize, usize), VRec>,
+    counts: Vec<u64>, // NENTRY * NCLASS
+    /// per entry: cases for which the reference defines a value
+    exp_ok: Vec<u64>,
+    digest: u64,
+}
+impl Agg {
+    fn new() -> Agg {
+        Agg { viol: BTreeMap::new(), counts: vec![0; NENTRY * NCLASS], exp_ok: vec![0; NENTRY], digest: 0 }
+    }
+    fn merge_rec(&mut self, k: (usize, usize, usize), r: VRec) {
+        match self.viol.get_mut(&k) {
+            None => {
+                self.viol.insert(k, r);
+            }
+            Some(old) => {
+                let c = old.count + r.count;
+                if r.input < old.input {
+                    *old = r;
+                }
+                old.count = c;
+            }
+        }
+    }
+    fn merge(&mut self, o: &mut Agg) {
+        for (k, r) in std::mem::take(&mut o.viol) {
+            self.merge_rec(k, r);
+        }
+        for (a, b) in self.counts.iter_mut().zip(o.counts.iter()) {
+            *a += *b;
+        }
+        self.digest = self.digest.wrapping_add(o.digest);
+        o.digest = 0;
+        for b in o.counts.iter_mut() {
+            *b = 0;
+        }
+        for (a, b) in self.exp_ok.iter_mut().zip(o.exp_ok.iter_mut()) {
+            *a += *b;
+            *b = 0;
+        }
+    }
+}
+
+/// per-thread state; merged into the shared aggregate when the worker thread ends
+struct TState<'a> {
+    local: Agg,
+    global: &'a Mutex<Agg>,
+    buf: Vec<u8>,
+    msg: Vec<u8>,
+}
+impl<'a> TState<'a> {
+    fn new(global: &'a Mutex<Agg>) -> Self {
+        TState { local: Agg::new(), global, buf: Vec::with_capacity(64), msg: Vec::with_capacity(96) }
+    }
+}
+impl Drop for TState<'_> {
+    fn drop(&mut self) {
+        self.global.lock().unwrap().merge(&mut self.local);
+    }
+}
+
+impl TState<'_> {
+    #[inline]
+    fn tally(&mut self, e: usize, class: usize, len: usize, input: &[u8], label: &dyn Fn() -> String, msg: &dyn Fn() -> String) {
+        self.local.counts[e * NCLASS + class] += 1;
+        if class >= FIRST_BAD {
+            let k = (e, class, len);
+            match self.local.viol.get_mut(&k) {
+                None => {
+                    self.local.viol.insert(k, VRec { input: input.to_vec(), label: label(), msg: msg(), count: 1 });
+                }
+                Some(r) => {
+                    r.count += 1;
+                    if input < &r.input[..] {
+                        r.input = input.to_vec();
+                        r.label = label();
+                        r.msg = msg();
+                    }
+                }
+            }
+        }
+    }
+
+    /// compare one observation with the reference; returns the class index
+    /// (`keylen` = length of the (S)LEB128 string under test inside input `s`)
+    fn judge<V: Num>(&mut self, e: usize, s: &[u8], keylen: usize, exp: Exp<V>, obs: Obs<V>, rep: &mut Report) -> usize {
+        rep.evaluations += 1;
+        rep.transitions += 1;
+        rep.traces_validated += 1;
+        let mut h = H::new();
+        h.b(e as u8);
+        h.u64(s.len() as u64);
+        for b in s {
+            h.b(*b);
+        }
+        match &obs {
+            Obs::Val(v, c) => {
+                h.b(1);
+                v.feed(&mut h);
+                h.u64(c.map(|c| c as u64 + 1).unwrap_or(0));
+            }
+            Obs::Shape(_) => h.b(2),
+            Obs::Err(_) => h.b(3),
+            Obs::Panic(_) => h.b(4),
+        }
+        self.local.digest = self.local.digest.wrapping_add(h.fin());
+        if matches!(exp, Exp::Val(..)) {
+            rep.nontrivial += 1;
+            self.local.exp_ok[e] += 1;
+        }
+        let class = match (&exp, &obs) {
+            (_, Obs::Panic(_)) => 4,
+            (Exp::Val(ev, ec), Obs::Val(ov, oc)) => {
+                if *ev != ov {
+                    5
+                } else if ec != oc {
+                    6
+                } else {
+                    0
+                }
+            }
+            (Exp::Val(..), Obs::Shape(_)) => 7,
+            (Exp::Val(..), Obs::Err(_)) => 8,
+            (Exp::Err(r), Obs::Val(..)) | (Exp::Err(r), Obs::Shape(_)) => {
+                if *r == "unterminated" {
+                    9
+                } else {
+                    10
+                }
+            }
+            (Exp::Err(r), Obs::Err(_)) => {
+                if *r == "unterminated" {
+                    1
+                } else {
+                    2
+                }
+            }
+        };
+        let msg = || {
+            let exp_s = match &exp {
+                Exp::Val(v, c) => match c {
+                    Some(c) => format!("Ok({}) consuming {} byte(s)", v.show(), c),
+                    None => format!("Ok({})", v.show()),
+                },
+                Exp::Err(r) => format!("Err ({r})"),
+            };
+            let obs_s = match &obs {
+                Obs::Val(v, c) => match c {
+                    Some(c) => format!("Ok({}) consuming {} byte(s)", v.show(), c),
+                    None => format!("Ok({})", v.show()),
+                },
+                Obs::Shape(s) => format!("Ok with unexpected container: {s}"),
+                Obs::Err(e) => format!("Err({})", first_line(&e.to_string())),
+                Obs::Panic(p) => format!("PANIC {p}"),
+            };
+            format!("{} on LEB bytes {}: reference says {}, subject gave {}", entry_name(e), hex::encode(s), exp_s, obs_s)
+        };
+        self.tally(e, class, keylen, s, &String::new, &msg);
+        class
+    }
+}
+
+fn first_line(s: &str) -> String {
+    let l = s.lines().next().unwrap_or("");
+    if l.len() > 160 {
+        format!("{}...", &l[..160])
+    } else {
+        l.to_string()
+    }
+}
+
+// ------------------------------------------------------------------------------------------
+// decoders
+// ------------------------------------------------------------------------------------------
+
+struct Oracle {
+    /// number of bytes of the terminated string at the start of the input, if any
+    term: Option<usize>,
+    u: BigUint,
+    s: BigInt,
+    u_int: BigInt,
+}
+fn oracle(s: &[u8]) -> Oracle {
+    match (leb::dec_u(s), leb::dec_s(s)) {
+        (Ok((u, cu)), Ok((sv, cs))) => {
+            assert_eq!(cu, cs);
+            let u_int = BigInt::from(u.clone());
+            Oracle { term: Some(cu), u, s: sv, u_int }
+        }
+        (Err(_), Err(_)) => Oracle { term: None, u: BigUint::zero(), s: BigInt::zero(), u_int: BigInt::zero() },
+        _ => panic!("reference model inconsistent on {}", hex::encode(s)),
+    }
+}
+
+fn read_with<V>(buf: &[u8], f: impl FnOnce(&mut &[u8]) -> candid::Result<V>) -> Obs<V> {
+    let mut r: &[u8] = buf;
+    let res = catch(|| f(&mut r));
+    match res {
+        Err(p) => Obs::Panic(p),
+        Ok(Err(e)) => Obs::Err(e),
+        Ok(Ok(v)) => Obs::Val(v, Some(buf.len() - r.len())),
+    }
+}
+fn msg_with<V>(f: impl FnOnce() -> candid::Result<Result<V, String>>) -> Obs<V> {
+    match catch(f) {
+        Err(p) => Obs::Panic(p),
+        Ok(Err(e)) => Obs::Err(e),
+        Ok(Ok(Ok(v))) => Obs::Val(v, None),
+        Ok(Ok(Err(shape))) => Obs::Shape(shape),
+    }
+}
+
+fn exp_big<'a, V>(o: &Oracle, v: &'a V, consumed: bool) -> Exp<'a, V> {
+    match o.term {
+        Some(c) => Exp::Val(v, if consumed { Some(c) } else { None }),
+        None => Exp::Err("unterminated"),
+    }
+}
+fn exp_host<'a, V>(o: &Oracle, v: &'a Option<V>, consumed: bool) -> Exp<'a, V> {
+    match (o.term, v) {
+        (Some(c), Some(v)) => Exp::Val(v, if consumed { Some(c) } else { None }),
+        (Some(_), None) => Exp::Err("out-of-range"),
+        (None, _) => Exp::Err("unterminated"),
+    }
+}
+
+/// Run decoder entry `e` on input `s` (`o` = reference outcome on `s`). Reader entries get
+/// `s` followed by a sentinel (nothing appended when `s` is unterminated); message entries
+/// get a message with exactly the terminated string `s[..term]` embedded.
+fn run_decoder(st: &mut TState, rep: &mut Report, e: usize, s: &[u8], o: &Oracle) -> usize {
+    use std::collections::BTreeMap as M;
+    if e < 4 {
+        let mut buf = std::mem::take(&mut st.buf);
+        buf.clear();
+        buf.extend_from_slice(s);
+        if o.term.is_some() {
+            buf.push(SENTINEL);
+        }
+        let kl = o.term.unwrap_or(s.len());
+        let c = match e {
+            0 => {
+                let obs = read_with(&buf, |r| Nat::decode(r).map(|n| n.0));
+                st.judge(e, s, kl, exp_big(o, &o.u, true), obs, rep)
+            }
+            1 => {
+                let obs = read_with(&buf, |r| Int::decode(r).map(|n| n.0));
+                st.judge(e, s, kl, exp_big(o, &o.s, true), obs, rep)
+            }
+            2 => {
+                let obs = read_with(&buf, |r| sub_leb::decode_nat(r));
+                let v = o.u.to_u128();
+                st.judge(e, s, kl, exp_host(o, &v, true), obs, rep)
+            }
+            _ => {
+                let obs = read_with(&buf, |r| sub_leb::decode_int(r));
+                let v = o.s.to_i128();
+                st.judge(e, s, kl, exp_host(o, &v, true), obs, rep)
+            }
+        };
+        st.buf = buf;
+        return c;
+    }
+    let x = match o.term {
+        Some(c) => &s[..c],
+        None => s,
     };
-    let mut replay = None;
-    let mut rest = vec![];
+    let mut m = std::mem::take(&mut st.msg);
+    build_msg(e, x, o.term.is_some(), &mut m);
+    let mb: &[u8] = &m;
+    let unterminated = o.term.is_none();
+    let c = match e {
+        4 => {
+            let obs = msg_with(|| Decode!(mb, Nat).map(|n| Ok(n.0)));
+            st.judge(e, x, x.len(), exp_big(o, &o.u, false), obs, rep)
+        }
+        5 => {
+            let obs = msg_with(|| Decode!(mb, Int).map(|n| Ok(n.0)));
+            st.judge(e, x, x.len(), exp_big(o, &o.s, false), obs, rep)
+        }
+        6 => {
+            let obs = msg_with(|| Decode!(mb, Int).map(|n| Ok(n.0)));
+            st.judge(e, x, x.len(), exp_big(o, &o.u_int, false), obs, rep)
+        }
+        7 => {
+            let obs = msg_with(|| Decode!(mb, u128).map(Ok));
+            let v = o.u.to_u128();
+            st.judge(e, x, x.len(), exp_host(o, &v, false), obs, rep)
+        }
+        8 => {
+            let obs = msg_with(|| Decode!(mb, i128).map(Ok));
+            let v = o.s.to_i128();
+            st.judge(e, x, x.len(), exp_host(o, &v, false), obs, rep)
+        }
+        9 => {
+            let obs = msg_with(|| Decode!(mb, i128).map(Ok));
+            let v = o.u.to_i128();
+            st.judge(e, x, x.len(), exp_host(o, &v, false), obs, rep)
+        }
+        10 => {
+            let obs = msg_with(|| {
+                Decode!(mb, Vec<Nat>).map(|mut v| {
+                    if !unterminated && v.len() == 2 && v[1] == Nat::from(42u8) {
+                        Ok(v.swap_remove(0).0)
+                    } else {
+                        Err(format!("{v:?}"))
+                    }
+                })
+            });
+            st.judge(e, x, x.len(), exp_big(o, &o.u, false), obs, rep)
+        }
+        11 | 12 => {
+            let companion = if e == 11 { Int::from(-2) } else { Int::from(42) };
+            let obs = msg_with(|| {
+                Decode!(mb, Vec<Int>).map(|mut v| {
+                    if !unterminated && v.len() == 2 && v[1] == companion {
+                        Ok(v.swap_remove(0).0)
+                    } else {
+                        Err(format!("{v:?}"))
+                    }
+                })
+            });
+            let ev = if e == 11 { &o.s } else { &o.u_int };
+            st.judge(e, x, x.len(), exp_big(o, ev, false), obs, rep)
+        }
+        13 => {
+            let obs = msg_with(|| {
+                Decode!(mb, M<u8, Int>).map(|mut v| {
+                    if !unterminated && v.len() == 2 && v.get(&9) == Some(&Int::from(-2)) && v.contains_key(&5) {
+                        Ok(v.remove(&5).unwrap().0)
+                    } else {
+                        Err(format!("{v:?}"))
+                    }
+                })
+            });
+            st.judge(e, x, x.len(), exp_big(o, &o.s, false), obs, rep)
+        }
+        14 => {
+            let obs = msg_with(|| {
+                Decode!(mb, M<String, Nat>).map(|mut v| {
+                    if !unterminated && v.len() == 2 && v.get("b") == Some(&Nat::from(42u8)) && v.contains_key("a") {
+                        Ok(v.remove("a").unwrap().0)
+                    } else {
+                        Err(format!("{v:?}"))
+                    }
+                })
+            });
+            st.judge(e, x, x.len(), exp_big(o, &o.u, false), obs, rep)
+        }
+        15 => {
+            let obs = msg_with(|| {
+                IDLArgs::from_bytes(mb).map(|mut a| match (a.args.len(), a.args.pop()) {
+                    (1, Some(IDLValue::Nat(n))) => Ok(n.0),
+                    (_, last) => Err(format!("{} args, last {last:?}", a.args.len() + 1)),
+                })
+            });
+            st.judge(e, x, x.len(), exp_big(o, &o.u, false), obs, rep)
+        }
+        16 => {
+            let obs = msg_with(|| {
+                IDLArgs::from_bytes(mb).map(|mut a| match (a.args.len(), a.args.pop()) {
+                    (1, Some(IDLValue::Int(n))) => Ok(n.0),
+                    (_, last) => Err(format!("{} args, last {last:?}", a.args.len() + 1)),
+                })
+            });
+            st.judge(e, x, x.len(), exp_big(o, &o.s, false), obs, rep)
+        }
+        _ => unreachable!(),
+    };
+    st.msg = m;
+    c
+}
+
+/// All decoder entries on one input. The reader entry points always run. Message-level
+/// entries run when the input is exactly one terminated string, or is unterminated; in a
+/// boundary family (`family`) additionally when it is a terminated string followed by a
+/// single 0x00 (so the (n-1)-byte strings of the family are embedded once, not 256 times),
+/// and unterminated inputs are embedded only when their last byte is in the pattern alphabet
+/// (the 128 continuation values of the last byte of an unterminated string all end at the end
+/// of the message; each message-level decode costs ~2.5 us, 50x a reader call).
+fn check_input(st: &mut TState, rep: &mut Report, s: &[u8], family: bool) {
+    rep.states += 1;
+    let o = oracle(s);
+    for e in 0..4 {
+        run_decoder(st, rep, e, s, &o);
+    }
+    let msg_level = match o.term {
+        None => !family || s.last().map(|b| ALPHA.contains(b)).unwrap_or(true),
+        Some(c) => c == s.len() || (family && c + 1 == s.len() && s[c] == 0),
+    };
+    if msg_level {
+        for e in 4..DEC.len() {
+            run_decoder(st, rep, e, s, &o);
+        }
+    }
+}
+
+// ------------------------------------------------------------------------------------------
+// encoders
+// ------------------------------------------------------------------------------------------
+
+fn with_header(h: &[u8], body: Vec<u8>) -> Vec<u8> {
+    let mut v = h.to_vec();
+    v.extend(body);
+    v
+}
+
+/// Run encoder entry `e` (index into ENC) on integer `v`; None = entry not applicable.
+fn run_encoder(st: &mut TState, rep: &mut Report, e: usize, v: &BigInt) -> Option<usize> {
+    let nonneg = !v.is_negative();
+    let mag = v.magnitude().clone();
+    let (expected, observed): (Vec<u8>, Result<candid::Result<Vec<u8>>, String>) = match e {
+        0 if nonneg => (leb::enc_u(&mag), catch(|| {
+            let mut w = vec![];
+            Nat(mag.clone()).encode(&mut w).map(|_| w)
+        })),
+        1 => (leb::enc_s(v), catch(|| {
+            let mut w = vec![];
+            Int(v.clone()).encode(&mut w).map(|_| w)
+        })),
+        2 if nonneg && v.to_u128().is_some() => {
+            let x = v.to_u128().unwrap();
+            (leb::enc_u(&mag), catch(|| {
+                let mut w = vec![];
+                sub_leb::encode_nat(&mut w, x).map(|_| w)
+            }))
+        }
+        3 if v.to_i128().is_some() => {
+            let x = v.to_i128().unwrap();
+            (leb::enc_s(v), catch(|| {
+                let mut w = vec![];
+                sub_leb::encode_int(&mut w, x).map(|_| w)
+            }))
+        }
+        4 if nonneg => (with_header(H_NAT, leb::enc_u(&mag)), catch(|| Encode!(&Nat(mag.clone())))),
+        5 => (with_header(H_INT, leb::enc_s(v)), catch(|| Encode!(&Int(v.clone())))),
+        6 if nonneg && v.to_u128().is_some() => {
+            let x = v.to_u128().unwrap();
+            (with_header(H_NAT, leb::enc_u(&mag)), catch(|| Encode!(&x)))
+        }
+        7 if v.to_i128().is_some() => {
+            let x = v.to_i128().unwrap();
+            (with_header(H_INT, leb::enc_s(v)), catch(|| Encode!(&x)))
+        }
+        8 if nonneg => (with_header(H_NAT, leb::enc_u(&mag)), catch(|| IDLArgs::new(&[IDLValue::Nat(Nat(mag.clone()))]).to_bytes())),
+        9 => (with_header(H_INT, leb::enc_s(v)), catch(|| IDLArgs::new(&[IDLValue::Int(Int(v.clone()))]).to_bytes())),
+        _ => return None,
+    };
+    rep.evaluations += 1;
+    rep.transitions += 1;
+    rep.traces_validated += 1;
+    rep.nontrivial += 1;
+    let ge = DEC.len() + e;
+    let (class, tag): (usize, u8) = match &observed {
+        Err(_) => (4, 4),
+        Ok(Err(_)) => (11, 3),
+        Ok(Ok(b)) if *b == expected => (3, 1),
+        Ok(Ok(_)) => (11, 1),
+    };
+    let mut h = H::new();
+    h.b(ge as u8);
+    v.feed(&mut h);
+    h.b(tag);
+    if let Ok(Ok(b)) = &observed {
+        for x in b {
+            h.b(*x);
+        }
+    }
+    st.local.digest = st.local.digest.wrapping_add(h.fin());
+    // sort key: magnitude (fixed width, big endian), then sign
+    let mut sk = vec![0u8; 32];
+    let mb = mag.to_bytes_be();
+    sk[32 - mb.len()..].copy_from_slice(&mb);
+    sk.push(if nonneg { 0 } else { 1 });
+    let msg = || {
+        let obs_s = match &observed {
+            Err(p) => format!("PANIC {p}"),
+            Ok(Err(er)) => format!("Err({})", first_line(&er.to_string())),
+            Ok(Ok(b)) => hex::encode(b),
+        };
+        format!("{} on integer {}: reference string {}, subject gave {}", entry_name(ge), v, hex::encode(&expected), obs_s)
+    };
+    let body_len = expected.len() - if e >= 4 { H_NAT.len() } else { 0 };
+    st.tally(ge, class, body_len, &sk, &|| v.to_string(), &msg);
+    Some(class)
+}
+
+/// all integers ±2^k + d, d in -2..=2, k <= 200
+fn encoder_values() -> Vec<BigInt> {
+    let mut set = BTreeSet::new();
+    for k in 0..=200u32 {
+        let p = BigInt::one() << k;
+        for sign in [1i32, -1] {
+            for d in -2i32..=2 {
+                set.insert(&p * sign + d);
+            }
+        }
+    }
+    set.into_iter().collect()
+}
+
+// ------------------------------------------------------------------------------------------
+// input families
+// ------------------------------------------------------------------------------------------
+
+const ALPHA: [u8; 5] = [0x80, 0xff, 0x81, 0xc0, 0xbf];
+const FAMILY_LENGTHS: [usize; 10] = [7, 8, 9, 10, 11, 18, 19, 20, 21, 40];
+/// quick tier: values of the last-but-one byte of a boundary family (the last byte takes all 256)
+const QUICK_B1: [u8; 17] = [0x00, 0x01, 0x02, 0x03, 0x04, 0x3e, 0x3f, 0x40, 0x41, 0x7c, 0x7d, 0x7e, 0x7f, 0x80, 0x81, 0xfe, 0xff];
+
+/// run-length patterns of length m over ALPHA with at most `max_runs` runs (adjacent runs differ)
+fn run_patterns(m: usize, max_runs: usize) -> Vec<Vec<u8>> {
+    let mut out = vec![];
+    if m == 0 {
+        return vec![vec![]];
+    }
+    for a in ALPHA {
+        out.push(vec![a; m]);
+    }
+    if max_runs >= 2 {
+        for a in ALPHA {
+            for b in ALPHA {
+                if a == b {
+                    continue;
+                }
+                for split in 1..m {
+                    let mut v = vec![a; split];
+                    v.extend(std::iter::repeat(b).take(m - split));
+                    out.push(v);
+                }
+            }
+        }
+    }
+    if max_runs >= 3 {
+        for a in ALPHA {
+            for b in ALPHA {
+                for c in ALPHA {
+                    if a == b || b == c {
+                        continue;
+                    }
+                    for s1 in 1..m {
+                        for s2 in s1 + 1..m {
+                            let mut v = vec![a; s1];
+                            v.extend(std::iter::repeat(b).take(s2 - s1));
+                            v.extend(std::iter::repeat(c).take(m - s2));
+                            out.push(v);
+                        }
+                    }
+                }
+            }
+        }
+    }
+    out
+}
+
+/// index -> byte string, all strings of length 0..=3 in (length, lexicographic) order
+fn short_string(mut i: u64, out: &mut Vec<u8>) {
+    out.clear();
+    if i == 0 {
+        return;
+    }
+    i -= 1;
+    if i < 256 {
+        out.push(i as u8);
+        return;
+    }
+    i -= 256;
+    if i < 65536 {
+        out.extend_from_slice(&[(i >> 8) as u8, i as u8]);
+        return;
+    }
+    i -= 65536;
+    out.extend_from_slice(&[(i >> 16) as u8, (i >> 8) as u8, i as u8]);
+}
+
+// ------------------------------------------------------------------------------------------
+// the sweep (identical in the parent and in the release worker)
+// ------------------------------------------------------------------------------------------
+
+struct RunResult {
+    rep: Report,
+    agg: Agg,
+    digests: BTreeMap<String, u64>,
+    scope: Value,
+}
+
+fn run_all(ctx: &Ctx, only: &[String]) -> RunResult {
+    let tier = ctx.tier;
+    let global = Mutex::new(Agg::new());
+    let mut rep = Report::new();
+    let mut digests = BTreeMap::new();
+    let mut scope = serde_json::Map::new();
+    let wanted = |name: &str| only.is_empty() || only.iter().any(|o| name.starts_with(o.as_str()));
+    let mut last_digest = 0u64;
+    let mut close_level = |name: &str, r: Report, rep: &mut Report, digests: &mut BTreeMap<String, u64>| {
+        rep.merge(r);
+        let d = global.lock().unwrap().digest;
+        digests.insert(name.to_string(), d.wrapping_sub(last_digest));
+        last_digest = d;
+    };
+
+    // (i) all byte strings of length <= L
+    let maxlen = tier.pick(2usize, 3usize);
+    let total: u64 = (0..=maxlen).map(|l| 256u64.pow(l as u32)).sum();
+    let name = format!("all-strings-len<={maxlen}");
+    if wanted(&name) {
+        let r = ctx.par_range(&name, total, 4096, || (TState::new(&global), Vec::with_capacity(4)), |(st, s), i, rep| {
+            short_string(i, s);
+            let s2 = std::mem::take(s);
+            check_input(st, rep, &s2, false);
+            *s = s2;
+        });
+        close_level(&name, r, &mut rep, &mut digests);
+        scope.insert(name.clone(), json!({"inputs": total}));
+    }
+
+    // (ii) boundary families
+    for n in FAMILY_LENGTHS {
+        let name = format!("family-n={n:02}");
+        if !wanted(&name) {
+            continue;
+        }
+        let prefixes = run_patterns(n - 2, 2);
+        let tails: u64 = tier.pick(QUICK_B1.len() as u64 * 256, 65536);
+        let total = prefixes.len() as u64 * tails;
+        let r = ctx.par_range(&name, total, 2048, || (TState::new(&global), Vec::with_capacity(48)), |(st, s), i, rep| {
+            let p = &prefixes[(i / tails) as usize];
+            let t = i % tails;
+            let (b1, b2) = match tier {
+                Tier::Quick => (QUICK_B1[(t / 256) as usize], (t % 256) as u8),
+                Tier::Thorough => ((t >> 8) as u8, t as u8),
+            };
+            s.clear();
+            s.extend_from_slice(p);
+            s.push(b1);
+            s.push(b2);
+            let s2 = std::mem::take(s);
+            check_input(st, rep, &s2, true);
+            *s = s2;
+        });
+        close_level(&name, r, &mut rep, &mut digests);
+        scope.insert(name.clone(), json!({"prefix_patterns": prefixes.len(), "tails_per_prefix": tails, "inputs": total}));
+    }
+
+    // (iii) unterminated strings of every length 1..=21
+    let name = "unterminated-len-1..21";
+    if wanted(name) {
+        let mut inputs: Vec<Vec<u8>> = vec![];
+        for l in 1..=21 {
+            inputs.extend(run_patterns(l, tier.pick(2, 3)));
+        }
+        let r = ctx.par_range(name, inputs.len() as u64, 64, || TState::new(&global), |st, i, rep| {
+            check_input(st, rep, &inputs[i as usize], false);
+        });
+        close_level(name, r, &mut rep, &mut digests);
+        scope.insert(name.to_string(), json!({"inputs": inputs.len(), "max_runs": tier.pick(2, 3)}));
+    }
+
+    // encoders
+    let name = "encoders";
+    if wanted(name) {
+        let vals = encoder_values();
+        let r = ctx.par_range(name, vals.len() as u64, 32, || TState::new(&global), |st, i, rep| {
+            rep.states += 1;
+            for e in 0..ENC.len() {
+                run_encoder(st, rep, e, &vals[i as usize]);
+            }
+        });
+        close_level(name, r, &mut rep, &mut digests);
+        scope.insert(name.to_string(), json!({"integers": vals.len()}));
+    }
+
+    let agg = global.into_inner().unwrap();
+    RunResult { rep, agg, digests, scope: Value::Object(scope) }
+}
+
+// ------------------------------------------------------------------------------------------
+// single-case execution (re-check before reporting, --replay)
+// ------------------------------------------------------------------------------------------
+
+/// returns (class, message) of the single case, via a throw-away state
+fn run_single(kind: &str, entry: usize, input: &str) -> Result<(usize, String), String> {
+    let g = Mutex::new(Agg::new());
+    let mut rep = Report::new();
+    let class;
+    {
+        let mut st = TState::new(&g);
+        if kind == "decode" {
+            let s = hex::decode(input).map_err(|e| e.to_string())?;
+            if entry >= DEC.len() {
+                return Err("not a decoder entry".into());
+            }
+            let o = oracle(&s);
+            class = run_decoder(&mut st, &mut rep, entry, &s, &o);
+        } else {
+            let v: BigInt = input.parse().map_err(|_| "bad integer".to_string())?;
+            if entry < DEC.len() {
+                return Err("not an encoder entry".into());
+            }
+            class = run_encoder(&mut st, &mut rep, entry - DEC.len(), &v).ok_or("entry not applicable to value")?;
+        }
+    }
+    let a = g.into_inner().unwrap();
+    let msg = a.viol.values().next().map(|r| r.msg.clone()).unwrap_or_else(|| "conforms to the reference".into());
+    Ok((class, msg))
+}
+
+#[derive(Clone, Debug)]
+struct Finding {
+    key: String,
+    entry: String,
+    class: String,
+    len: usize,
+    kind: String,
+    input: String,
+    msg: String,
+    count: u64,
+    rechecked: bool,
+}
+
+fn findings_of(agg: &Agg) -> Vec<Finding> {
+    let mut out = vec![];
+    // an entry point that rejects every input for which the reference defines a value is one
+    // case ("fails on every terminated input"), not one per length
+    let mut total_failure: BTreeSet<usize> = BTreeSet::new();
+    for e in 0..DEC.len() {
+        if agg.exp_ok[e] > 0 && agg.counts[e * NCLASS + 8] == agg.exp_ok[e] {
+            total_failure.insert(e);
+            let recs: Vec<&VRec> = agg.viol.iter().filter(|((e2, c, _), _)| *e2 == e && *c == 8).map(|(_, r)| r).collect();
+            let first = recs.iter().min_by_key(|r| (r.input.len(), r.input.clone())).unwrap();
+            let input = hex::encode(&first.input);
+            let rechecked = matches!(run_single("decode", e, &input), Ok((8, _)));
+            out.push(Finding {
+                key: format!("{}|{}|every-terminated-input|{}", entry_name(e), CLASSES[8], input),
+                entry: entry_name(e).to_string(),
+                class: CLASSES[8].to_string(),
+                len: first.input.len(),
+                kind: "decode".into(),
+                input,
+                msg: format!("rejects every one of the {} embedded terminated strings, of every length; smallest: {}", agg.exp_ok[e], first.msg),
+                count: recs.iter().map(|r| r.count).sum(),
+                rechecked,
+            });
+        }
+    }
+    for ((e, c, len), r) in &agg.viol {
+        if *c == 8 && total_failure.contains(e) {
+            continue;
+        }
+        let kind = if *e < DEC.len() { "decode" } else { "encode" };
+        let input = if kind == "decode" { hex::encode(&r.input) } else { r.label.clone() };
+        // every violation is re-executed once before it is reported
+        let rechecked = matches!(run_single(kind, *e, &input), Ok((c2, _)) if c2 == *c);
+        let lenword = if kind == "decode" { "len" } else { "reflen" };
+        out.push(Finding {
+            key: format!("{}|{}|{}={}|{}", entry_name(*e), CLASSES[*c], lenword, len, input),
+            entry: entry_name(*e).to_string(),
+            class: CLASSES[*c].to_string(),
+            len: *len,
+            kind: kind.to_string(),
+            input,
+            msg: r.msg.clone(),
+            count: r.count,
+            rechecked,
+        });
+    }
+    out
+}
+fn finding_json(f: &Finding) -> Value {
+    json!({"key": f.key, "entry": f.entry, "class": f.class, "len": f.len, "kind": f.kind, "input": f.input, "msg": f.msg, "count": f.count, "rechecked": f.rechecked})
+}
+fn finding_from(v: &Value) -> Option<Finding> {
+    Some(Finding {
+        key: v["key"].as_str()?.to_string(),
+        entry: v["entry"].as_str()?.to_string(),
+        class: v["class"].as_str()?.to_string(),
+        len: v["len"].as_u64()? as usize,
+        kind: v["kind"].as_str()?.to_string(),
+        input: v["input"].as_str()?.to_string(),
+        msg: v["msg"].as_str()?.to_string(),
+        count: v["count"].as_u64()?,
+        rechecked: v["rechecked"].as_bool()?,
+    })
+}
+
+fn class_counts(agg: &Agg) -> BTreeMap<String, u64> {
+    let mut m = BTreeMap::new();
+    for e in 0..NENTRY {
+        for c in 0..NCLASS {
+            let n = agg.counts[e * NCLASS + c];
+            if n > 0 {
+                m.insert(format!("{}:{}", entry_name(e), CLASSES[c]), n);
+            }
+        }
+    }
+    m
+}
+
+fn overflow_checks_enabled() -> bool {
+    let x: u8 = std::hint::black_box(255);
+    catch(|| std::hint::black_box(x + std::hint::black_box(1))).is_err()
+}
+fn profile_name() -> &'static str {
+    if cfg!(debug_assertions) {
+        "checked"
+    } else {
+        "release"
+    }
+}
+
+/// the hand-written message templates must be what the reference wire decoder (R2) reads
+fn selftest_templates() {
+    use refmodel::val::Val;
+    use refmodel::wire::{decode, Limits};
+    let lim = Limits::default();
+    let x = [0x85u8, 0x01]; // 133 unsigned, 133 signed (0x01 has sign bit clear)
+    let nat = |n: u64| Val::nat(n);
+    let int = |n: i64| Val::int(n);
+    let rec = |a: Val, b: Val| Val::Record(vec![(0, a), (1, b)]);
+    let expect: Vec<(usize, Val)> = vec![
+        (4, nat(133)),
+        (5, int(133)),
+        (10, Val::Vec(vec![nat(133), nat(42)])),
+        (11, Val::Vec(vec![int(133), int(-2)])),
+        (13, Val::Vec(vec![rec(Val::NatN(8, 5), int(133)), rec(Val::NatN(8, 9), int(-2))])),
+        (14, Val::Vec(vec![rec(Val::Text("a".into()), nat(133)), rec(Val::Text("b".into()), nat(42))])),
+    ];
+    let mut m = vec![];
+    for (e, v) in expect {
+        build_msg(e, &x, true, &mut m);
+        match decode(&m, &lim) {
+            Ok(d) if d.vals == vec![v.clone()] => {}
+            Ok(d) => {
+                eprintln!("ENGINE-ERROR: template {} decodes to {:?}, wanted {:?}", entry_name(e), d.vals, v);
+                std::process::exit(2);
+            }
+            Err(er) => {
+                eprintln!("ENGINE-ERROR: template {} rejected by reference decoder: {:?}", entry_name(e), er);
+                std::process::exit(2);
+            }
+        }
+        // the one-element (unterminated) form with a terminated x must also be well-formed
+        build_msg(e, &x, false, &mut m);
+        if decode(&m, &lim).is_err() {
+            eprintln!("ENGINE-ERROR: one-element template {} rejected by reference decoder", entry_name(e));
+            std::process::exit(2);
+        }
+    }
+}
+
+// ------------------------------------------------------------------------------------------
+// main
+// ------------------------------------------------------------------------------------------
+
+struct Args {
+    tier: Tier,
+    replay: Option<String>,
+    worker: bool,
+    only: Vec<String>,
+}
+fn parse_args() -> Args {
+    let args: Vec<String> = std::env::args().collect();
+    let mut a = Args {
+        tier: match std::env::var("VERIF_TIER").as_deref() {
+            Ok("thorough") => Tier::Thorough,
+            _ => Tier::Quick,
+        },
+        replay: None,
+        worker: false,
+        only: vec![],
+    };
     let mut i = 1;
     while i < args.len() {
         match args[i].as_str() {
             "--tier" => {
                 i += 1;
-                tier = if args.get(i).map(|s| s.as_str()) == Some("thorough") { Tier::Thorough } else { Tier::Quick };
+                a.tier = if args.get(i).map(|s| s.as_str()) == Some("thorough") { Tier::Thorough } else { Tier::Quick };
             }
             "--replay" => {
                 i += 1;
-                replay = args.get(i).cloned();
+                a.replay = args.get(i).cloned();
             }
-            o => rest.push(o.to_string()),
+            "--worker-release" => a.worker = true,
+            o => a.only.push(o.to_string()),
         }
         i += 1;
     }
-    (tier, replay, rest)
+    a
+}
+
+fn release_binary() -> Option<std::path::PathBuf> {
+    let dir = std::env::var("MC_RELEASE_DIR").ok()?;
+    let p = std::path::Path::new(&dir).join("c09");
+    if p.is_file() {
+        Some(p)
+    } else {
+        None
+    }
+}
+
+fn worker_main(a: &Args, cap: u64) -> i32 {
+    let ctx = Ctx::new("C09", a.tier, cap);
+    let res = run_all(&ctx, &a.only);
+    let findings = findings_of(&res.agg);
+    let out = json!({
+        "profile": profile_name(),
+        "overflow_checks": overflow_checks_enabled(),
+        "levels": res.rep.levels,
+        "exhaustive": res.rep.exhaustive,
+        "evaluations": res.rep.evaluations,
+        "states": res.rep.states,
+        "traces": res.rep.traces_validated,
+        "nontrivial": res.rep.nontrivial,
+        "notes": res.rep.notes,
+        "class_counts": class_counts(&res.agg),
+        "digests": res.digests.iter().map(|(k, v)| (k.clone(), json!(format!("{v:016x}")))).collect::<serde_json::Map<_, _>>(),
+        "findings": findings.iter().map(finding_json).collect::<Vec<_>>(),
+        "failing_cases": findings.iter().map(|f| f.count).sum::<u64>(),
+        "wall_s": ctx.start.elapsed().as_secs_f64(),
+    });
+    println!("C09-WORKER-JSON {}", serde_json::to_string(&out).unwrap());
+    0
+}
+
+fn replay_main(path: &str) -> i32 {
+    let s = match std::fs::read_to_string(path) {
+        Ok(s) => s,
+        Err(e) => {
+            eprintln!("ENGINE-ERROR: cannot read {path}: {e}");
+            return 2;
+        }
+    };
+    let v: Value = match serde_json::from_str(&s) {
+        Ok(v) => v,
+        Err(e) => {
+            eprintln!("ENGINE-ERROR: {path}: {e}");
+            return 2;
+        }
+    };
+    let case = &v["case"];
+    let want_profile = case["profile"].as_str().unwrap_or("checked");
+    if want_profile == "release" && profile_name() != "release" {
+        // the recorded observation belongs to the plain release build: re-run it there
+        let bin = release_binary().or_else(|| {
+            let p = std::path::PathBuf::from("/verif/mc/target/release/c09");
+            p.is_file().then_some(p)
+        });
+        let Some(bin) = bin else {
+            eprintln!("ENGINE-ERROR: case was recorded in the release profile and no release build of c09 is available (MC_RELEASE_DIR)");
+            return 2;
+        };
+        return match std::process::Command::new(bin).arg("--replay").arg(path).status() {
+            Ok(st) => st.code().unwrap_or(2),
+            Err(e) => {
+                eprintln!("ENGINE-ERROR: cannot run release binary: {e}");
+                2
+            }
+        };
+    }
+    let (Some(kind), Some(entry), Some(input)) = (case["kind"].as_str(), case["entry"].as_str(), case["input"].as_str()) else {
+        eprintln!("ENGINE-ERROR: replay file has no case.kind / case.entry / case.input");
+        return 2;
+    };
+    let Some(e) = entry_index(entry) else {
+        eprintln!("ENGINE-ERROR: unknown entry point {entry}");
+        return 2;
+    };
+    match run_single(kind, e, input) {
+        Err(er) => {
+            eprintln!("ENGINE-ERROR: {er}");
+            2
+        }
+        Ok((class, msg)) if class >= FIRST_BAD => {
+            let same = case["class"].as_str() == Some(CLASSES[class]);
+            println!(
+                "REPRODUCED [{}] {}|{}|{} :: {}{}",
+                profile_name(),
+                entry,
+                CLASSES[class],
+                input,
+                msg,
+                if same { "" } else { " (failure class differs from the recorded one)" }
+            );
+            1
+        }
+        Ok((class, _)) => {
+            println!("not reproduced [{}]: {} on {} conforms to the reference ({})", profile_name(), entry, input, CLASSES[class]);
+            0
+        }
+    }
 }
 
 fn main() {
     install_quiet_panic_hook();
-    let (tier, replay, _rest) = parse_args();
-    if let Some(path) = replay {
-        let _ = path;
-        eprintln!("replay not implemented yet");
-        std::process::exit(2);
+    std::env::remove_var("RUST_BACKTRACE");
+    std::env::remove_var("RUST_LIB_BACKTRACE");
+    let a = parse_args();
+    if let Some(path) = &a.replay {
+        std::process::exit(replay_main(path));
     }
-    let ctx = Ctx::new("C09", tier, tier.pick(120, 1200));
-    let mut rep = Report::new();
-    let _ = catch(|| ());
-    rep.sample(json!("skeleton"));
-    let code = finish(&ctx, rep, "skeleton", &[], json!({}));
+    selftest_templates();
+    let cap = a.tier.pick(100, 1300);
+    if a.worker {
+        std::process::exit(worker_main(&a, cap));
+    }
+
+    // start the release-profile worker first; it runs concurrently with the sweep below
+    let tier_name = a.tier.name();
+    let mut release_note: Option<String> = None;
+    let worker = match release_binary() {
+        None => {
+            release_note = Some("release profile NOT run: MC_RELEASE_DIR unset or $MC_RELEASE_DIR/c09 missing".into());
+            None
+        }
+        Some(bin) => {
+            let mut cmd = std::process::Command::new(&bin);
+            cmd.arg("--worker-release").arg("--tier").arg(tier_name).args(&a.only);
+            cmd.stdout(std::process::Stdio::piped()).stderr(std::process::Stdio::inherit());
+            match cmd.spawn() {
+                Ok(child) => Some(std::thread::spawn(move || child.wait_with_output())),
+                Err(e) => {
+                    release_note = Some(format!("release profile NOT run: cannot spawn {}: {e}", bin.display()));
+                    None
+                }
+            }
+        }
+    };
+
+    let ctx = Ctx::new("C09", a.tier, cap + 60);
+    let res = run_all(&ctx, &a.only);
+    let mut rep = res.rep;
+    let checked = findings_of(&res.agg);
+    let checked_cases: u64 = checked.iter().map(|f| f.count).sum();
+    for (k, n) in class_counts(&res.agg) {
+        rep.outcomes.insert(k, n);
+    }
+
+    // collect the worker's report
+    let mut release: Vec<Finding> = vec![];
+    let mut release_cases = 0u64;
+    let mut release_json = Value::Null;
+    if let Some(h) = worker {
+        match h.join() {
+            Ok(Ok(out)) => {
+                let text = String::from_utf8_lossy(&out.stdout).to_string();
+                match text.lines().rev().find_map(|l| l.strip_prefix("C09-WORKER-JSON ")).and_then(|j| serde_json::from_str::<Value>(j).ok()) {
+                    Some(j) if out.status.success() => release_json = j,
+                    _ => release_note = Some(format!("release worker died or printed no report (status {:?}); release level not completed", out.status.code())),
+                }
+            }
+            _ => release_note = Some("release worker could not be awaited".into()),
+        }
+    }
+    let mut digest_cmp = serde_json::Map::new();
+    if release_json.is_object() {
+        let j = &release_json;
+        if j["profile"].as_str() != Some("release") || j["overflow_checks"].as_bool() != Some(false) {
+            release_note = Some(format!(
+                "binary in MC_RELEASE_DIR is not a plain release build (profile {:?}, overflow checks {:?})",
+                j["profile"], j["overflow_checks"]
+            ));
+        }
+        for l in j["levels"].as_array().cloned().unwrap_or_default() {
+            rep.level(&format!("release:{}", l["level"].as_str().unwrap_or("?")), l["cases"].as_u64().unwrap_or(0), l["completed"].as_bool().unwrap_or(false));
+        }
+        for n in j["notes"].as_array().cloned().unwrap_or_default() {
+            rep.notes.push(format!("release: {}", n.as_str().unwrap_or("")));
+        }
+        rep.count("release:evaluations", j["evaluations"].as_u64().unwrap_or(0));
+        rep.count("release:inputs", j["states"].as_u64().unwrap_or(0));
+        rep.count("release:traces_validated", j["traces"].as_u64().unwrap_or(0));
+        rep.count("release:wall_s", j["wall_s"].as_f64().unwrap_or(0.0) as u64);
+        for (k, n) in j["class_counts"].as_object().cloned().unwrap_or_default() {
+            rep.outcomes.insert(format!("release:{k}"), n.as_u64().unwrap_or(0));
+        }
+        release = j["findings"].as_array().map(|a| a.iter().filter_map(finding_from).collect()).unwrap_or_default();
+        release_cases = j["failing_cases"].as_u64().unwrap_or(0);
+        let mut all_equal = true;
+        for (lvl, d) in &res.digests {
+            let mine = format!("{d:016x}");
+            let theirs = j["digests"][lvl].as_str().unwrap_or("missing").to_string();
+            let eq = mine == theirs;
+            all_equal &= eq;
+            digest_cmp.insert(lvl.clone(), json!({"checked": mine, "release": theirs, "equal": eq}));
+        }
+        rep.notes.push(if all_equal {
+            "profiles: per-level digests of all (entry, input, ok/err/panic, value, consumed) outcomes are equal in checked and release".into()
+        } else {
+            "profiles: outcome digests differ between checked and release on some levels (see profile_digests); the differing cases are the findings that carry only one profile".into()
+        });
+    }
+    match &release_note {
+        Some(n) => {
+            rep.notes.push(n.clone());
+            rep.level("release-profile", 0, false);
+        }
+        None => rep.level("release-profile", release_json["states"].as_u64().unwrap_or(0), release_json["exhaustive"].as_bool().unwrap_or(false)),
+    }
+
+    // merge findings: same key in both profiles => one violation; release-only => "release:" prefix
+    let rel_keys: BTreeSet<String> = release.iter().map(|f| f.key.clone()).collect();
+    let chk_keys: BTreeSet<String> = checked.iter().map(|f| f.key.clone()).collect();
+    let have_release = release_json.is_object();
+    for f in &checked {
+        let both = rel_keys.contains(&f.key);
+        let prof = if both {
+            "both profiles"
+        } else if have_release {
+            "checked profile only (release behaves differently on this input)"
+        } else {
+            "checked profile"
+        };
+        let msg = format!("[{prof}; {} failing input(s) of this entry/class/length{}] {}", f.count, if f.rechecked { "" } else { "; NOT reproduced on re-check" }, f.msg);
+        let case = json!({"kind": f.kind, "entry": f.entry, "class": f.class, "input": f.input, "profile": "checked", "also_in_release": both, "failing_inputs_of_this_key": f.count});
+        rep.violation(&f.key, msg, case);
+    }
+    for f in &release {
+        if chk_keys.contains(&f.key) {
+            continue;
+        }
+        let msg = format!("[release profile only; {} failing input(s) of this entry/class/length{}] {}", f.count, if f.rechecked { "" } else { "; NOT reproduced on re-check" }, f.msg);
+        let case = json!({"kind": f.kind, "entry": f.entry, "class": f.class, "input": f.input, "profile": "release", "failing_inputs_of_this_key": f.count});
+        rep.violation(&format!("release:{}", f.key), msg, case);
+    }
+    rep.violation_count = checked_cases + release_cases;
+    rep.count("failing_cases_checked", checked_cases);
+    rep.count("failing_cases_release", release_cases);
+    rep.sample(json!({"input": "80 x18 04 (nat 2^128)", "reference": "value 340282366920938463463374607431768211456, 19 bytes; u128 decoders must reject"}));
+    rep.sample(json!({"input": "ff 7f", "reference": "unsigned 16383, signed -1, 2 bytes consumed"}));
+    rep.sample(json!({"integer": "-2^127 - 1", "reference_sleb": hex::encode(leb::enc_s(&(-(BigInt::one() << 127u32) - 1)))}));
+
+    let code = finish(
+        &ctx,
+        rep,
+        "inputs = byte strings: (i) all strings of length <= L (quick L=2, thorough L=3, incl. the empty string), each followed by a sentinel for the reader entry points; (ii) for n in {7,8,9,10,11,18,19,20,21,40}: (one run | two runs with every split point) over {80,ff,81,c0,bf} of length n-2, followed by two free bytes (thorough: all 65536; quick: 17 listed values of byte n-1 x all 256 of byte n); (iii) all-continuation strings of length 1..21 in run-length form (quick <=2 runs, thorough <=3 runs). Every input goes to the 4 reader entry points; the 13 message-level entry points get it when it is exactly one terminated string, or unterminated (in family ii: only when the last byte is one of the 5 pattern bytes), or (family ii) a terminated string followed by one 00. Encoders: all integers +-2^k+d, |d|<=2, k<=200 on 10 encoder entry points (128-bit ones when in range). Non-trivial = the reference defines a value (terminated string / applicable encoder). A violation key is (entry point, failure class, byte length) with the smallest failing input of that key as the recorded case; all sweeps are repeated by the plain --release build.",
+        &[
+            "refmodel::leb (R6) is a correct reading of LEB128 / SLEB128 in spec/Candid.md",
+            "hand-written message templates are validated at start-up against the reference wire decoder R2",
+            "error position / message of rejected inputs is unspecified and not compared",
+        ],
+        json!({"scope": res.scope, "profile_digests": digest_cmp, "decoder_entry_points": DEC, "encoder_entry_points": ENC, "quick_byte_n_minus_1_values": QUICK_B1.iter().map(|b| format!("{b:02x}")).collect::<Vec<_>>()}),
+    );
     std::process::exit(code);
 }
